@@ -17,7 +17,9 @@ PLAN = {
                                                     ("BFS_Recreate", 0, 0, 6, False)]},
     "C02": {"mc": ["MC_Lease", "MC_Names"], "gen": [("Gen_Mixed", 160, 4000, 25, True), ("Gen_Names", 60, 1500, 32, True), ("Gen_Snap", 60, 1500, 30, True), ("BFS_Recreate", 0, 0, 6, False), ("BFS_RecreateTopic", 0, 0, 6, False),
                                                     # dead-letter forwarding onto filtered / ordered subscriptions
-                                                    ("Gen_DeadLetter", 60, 1500, 32, True)]},
+                                                    ("Gen_DeadLetter", 60, 1500, 32, True),
+                                                    # every short history of forwarding onto filtered dead-letter subscriptions (has / NOT has / =)
+                                                    ("BFS_DLFilter", 0, 0, 12, False)]},
     "C03": {"mc": ["MC_Lease", "MC_DeadLetter"], "gen": [("Gen_Mixed", 120, 3000, 25, True), ("Gen_Ordered", 60, 1500, 30, True), ("Gen_DeadLetter", 60, 1500, 32, True),
                                                          # every short history of publish / pull / ack / sweep / clock step on a dead-lettering subscription
                                                          ("BFS_DLAck", 0, 0, 9, False)]},
